@@ -177,11 +177,32 @@ where
 
         // wait for the next packet, send keep-alive packets as necessary. Received bytes are only
         // consumed once the packet is complete, such that this future may be dropped at any point.
-        let (length, prefix_len) = loop {
-            // the length may already be buffered
-            if let Some(parsed) = Self::peek_varint(&self.read_buffer) {
-                break parsed;
+        let mut announced = false;
+        let (prefix_len, packet_len) = loop {
+            // the length (or even the whole packet) may already be buffered
+            if let Some((length, prefix_len)) = Self::peek_varint(&self.read_buffer) {
+                if !announced {
+                    // check the length of the packet for any following content
+                    if length <= 0 || length > self.max_packet_length {
+                        debug!(
+                            length,
+                            "packet length should be between 0 and {}", self.max_packet_length
+                        );
+                        return Err(passage_packets::Error::IllegalPacketLength.into());
+                    }
+
+                    // track metrics
+                    let packet_size = u64::try_from(length).expect("length is always positive");
+                    metrics::packet_size::record_serverbound(packet_size);
+                    tracing::Span::current().record("packet_length", packet_size);
+                    announced = true;
+                }
+                let packet_len = prefix_len + length as usize;
+                if self.read_buffer.len() >= packet_len {
+                    break (prefix_len, packet_len);
+                }
             }
+            // a client that stalls in the middle of a packet is still kept alive (or timed out)
             tokio::select! {
                 // use biased selection such that branches are checked in order
                 biased;
@@ -204,44 +225,14 @@ where
                     let packet = conf_out::KeepAlivePacket { id };
                     self.send_packet(packet).await?;
                 },
-                // await the next bytes in, reading the packet size (expect fast execution)
-                maybe_read = self.stream.read_buf(&mut self.read_buffer).instrument(tracing::info_span!("read_packet_length", otel.kind = "server")) => {
+                // await the next bytes in (expect fast execution)
+                maybe_read = self.stream.read_buf(&mut self.read_buffer).instrument(tracing::info_span!("read_packet_bytes", otel.kind = "server")) => {
                     if maybe_read? == 0 {
                         return Err(std::io::Error::from(std::io::ErrorKind::UnexpectedEof).into());
                     }
                 },
             }
         };
-
-        // check the length of the packet for any following content
-        if length <= 0 || length > self.max_packet_length {
-            debug!(
-                length,
-                "packet length should be between 0 and {}", self.max_packet_length
-            );
-            return Err(passage_packets::Error::IllegalPacketLength.into());
-        }
-
-        // track metrics
-        let packet_size = u64::try_from(length).expect("length is always positive");
-        metrics::packet_size::record_serverbound(packet_size);
-        tracing::Span::current().record("packet_length", packet_size);
-
-        // wait for the remaining packet bytes
-        let packet_len = prefix_len + length as usize;
-        while self.read_buffer.len() < packet_len {
-            let read = self
-                .stream
-                .read_buf(&mut self.read_buffer)
-                .instrument(tracing::info_span!(
-                    "read_packet_bytes",
-                    otel.kind = "server"
-                ))
-                .await?;
-            if read == 0 {
-                return Err(std::io::Error::from(std::io::ErrorKind::UnexpectedEof).into());
-            }
-        }
 
         // take the packet from the buffer and extract the encoded packet id
         let packet: Vec<u8> = self.read_buffer.drain(..packet_len).skip(prefix_len).collect();
